@@ -172,7 +172,15 @@ def gen(rng, shard, nshards, keys_per_set, quick):
             faults = set(rng.sample(range(nleaves), 3))
             step = 0
             while True:
-                msg = rb(rng, rng.choice([0, 1, 32, 100]))
+                if rng.randrange(2):
+                    msg = rb(rng, rng.choice([0, 1, 32, 100]))
+                else:
+                    # total length of the randomised message hash (I || q || D_MESG || C || message) around a multiple of the
+                    # SHA-256 block / SHAKE256 rate
+                    pre = 22 + R.n
+                    B = rng.choice([64, 136])
+                    msg = rb(rng, max(0, B * rng.randrange(1, 5) - pre + rng.choice([-1, 0, 0, 1])))
+                    cl.add("message-length-on-block-boundary")
                 C = rb(rng, R.n)
                 if q >= nleaves:
                     break
@@ -206,8 +214,16 @@ def gen(rng, shard, nshards, keys_per_set, quick):
                 for _ in range(4 if quick else 10):
                     b = bytearray(sig)
                     m2 = msg
-                    t = rng.randrange(9)
-                    if t == 0:
+                    t = rng.randrange(10)
+                    if t == 9 and msg:
+                        mm = bytearray(msg)
+                        # any single bit of the message, with a preference for its last block
+                        pos = rng.randrange(len(mm)) if rng.randrange(2) else len(mm) - 1 - rng.randrange(min(len(mm), 64))
+                        mm[pos] ^= 1 << rng.randrange(8)
+                        m2 = bytes(mm); c = "message-bit-flipped"
+                    elif t == 9:
+                        m2 = b"\x01"; c = "other-message"
+                    elif t == 0:
                         m2 = msg + b"\x00"; c = "other-message"
                     elif t == 1:
                         b[rng.randrange(4)] ^= 1 << rng.randrange(8); c = "q-field"
@@ -267,7 +283,7 @@ def main(argv):
         # distinct: count distinct request lines rather than whole histories
         rep.extra["keys"] = keys * 4
         req = ["fault-injected", "all-leaves-used", "exhausted-returns-none", "alter:other-message", "alter:q-field", "alter:chain-value",
-               "alter:path-node", "alter:length+-1", "alter:other-leaf-index", "alter:C-field", "alter:lms-type", "alter:ots-type"]
+               "alter:path-node", "alter:length+-1", "alter:other-leaf-index", "alter:C-field", "alter:lms-type", "alter:ots-type", "alter:message-bit-flipped", "message-length-on-block-boundary"]
         req += [s + ":life" for s in SETS]
         rep.require(*req)
     except Inconclusive as e:
